@@ -122,7 +122,7 @@ def check_C11(ctx):
                                  "tetrahedral / hexahedral valence guards are covered under C15 / C16"])
 
 def check_C03(ctx):
-    kernel_property(ctx, "C03", "Props/Properties_C03.v", ["valid", "swaps", "setops"],
+    kernel_property(ctx, "C03", "Props/Properties_C03.v", ["valid", "swaps", "recycle", "setops"],
                     {"DelV", "DelE", "DelF", "DelC", "SwapV", "SwapE", "SwapF", "SwapC", "GC", "Clear", "AddV", "AddVs", "AddE", "AddFV", "AddC", "EnDef"},
                     assumptions=["proved for every reachable state: one element per slot; proved per notification and per swap: the slot permutation; "
                                  "that each delete_*_core applies exactly (optional swap-with-last, then delete-element) to the properties is tied by the "
@@ -130,7 +130,7 @@ def check_C03(ctx):
                                  "the oracle identifies vertices by their position (a harness-side identity token), i.e. it relies on vertex positions following C03 themselves"])
 
 def check_C17(ctx):
-    kernel_property(ctx, "C17", "Props/Properties_C17.v", ["swaps", "valid"], {"SwapV", "SwapE", "SwapF", "SwapC"},
+    kernel_property(ctx, "C17", "Props/Properties_C17.v", ["swaps", "valid", "recycle"], {"SwapV", "SwapE", "SwapF", "SwapC"},
                     assumptions=["full relabeling and involution are proved for the linear-scan implementation (consulted incidence kinds off) in every reachable state; "
                                  "with incidences on, the exchange of slots/flags/properties is proved in every mode, the relabeling of referring definitions is tied by lock step + oracle; "
                                  "the relabeling of definitions of deferred-DELETED entities is refuted (C17_relabel_of_deleted_definitions_refuted, KNOWN_FINDINGS D13)"])
@@ -140,13 +140,13 @@ def check_C17(ctx):
         ctx.known.append("swap_face_indices leaves the stored definition of a deferred-deleted cell unrelabeled (D13; replay corpus/kernel/known-findings.scripts)")
 
 def check_C02(ctx):
-    kernel_property(ctx, "C02", "Props/Properties_C02.v", ["valid", "setops"], {"DelV", "DelE", "DelF", "DelC", "GC", "EnDef"},
+    kernel_property(ctx, "C02", "Props/Properties_C02.v", ["valid", "recycle", "setops"], {"DelV", "DelE", "DelF", "DelC", "GC", "EnDef"},
                     assumptions=["cache exactness (vbu_ok/ebu_ok/fbu_ok) and the size invariant are hypotheses of the deferred-mode theorems; the size invariant is proved for every "
                                  "reachable state, cache exactness is evaluated by the sound decision procedures of Kernel/InvB.v on every model state the run visits",
                                  "the immediate and fast modes (renumbering) are covered by lock step + oracle, not by a theorem; the oracle identifies vertices by position tokens"])
 
 def check_C12(ctx):
-    kernel_property(ctx, "C12", "Props/Properties_C12.v", ["toggles", "valid", "toggles", "swaps"],
+    kernel_property(ctx, "C12", "Props/Properties_C12.v", ["toggles", "valid", "recycle", "swaps"],
                     {"DelV", "DelE", "DelF", "DelC", "SwapV", "SwapE", "SwapF", "SwapC", "GC", "EnVBU", "EnEBU", "EnFBU", "EnDef", "AddE", "AddFV", "AddC"},
                     assumptions=["'no operation reads a disabled cache out of range' is decided on the real library by ASan/UBSan/_GLIBCXX_ASSERTIONS on every lock-step run "
                                  "(all 8 incidence subsets x 4 deletion modes) and by the twin-mesh oracle, not by a theorem (the model totalises vector reads)",
@@ -154,12 +154,12 @@ def check_C12(ctx):
 
 def check_C04(ctx):
     os.environ["KGEN_STATUSGC"] = "1"     # the valid/swaps profiles then also call StatusAttrib::garbage_collection
-    kernel_property(ctx, "C04", "Props/Properties_C04.v", ["gc", "valid", "gc", "swaps"], {"GC", "EnDef", "StatusGC"},
+    kernel_property(ctx, "C04", "Props/Properties_C04.v", ["gc", "valid", "recycle", "swaps"], {"GC", "EnDef", "StatusGC"},
                     assumptions=["proved: counters/modes/sizes after collection in every state; 'the logical mesh is unchanged' and handle tracking are tied by lock step "
                                  "(incl. StatusAttrib::garbage_collection with tracking and the manifoldness option) and decided on the real library by the identity-token oracle"])
 
 def check_C01(ctx):
-    kernel_property(ctx, "C01", "Props/Properties_C01.v", ["valid", "toggles", "setops", "swaps"],
+    kernel_property(ctx, "C01", "Props/Properties_C01.v", ["valid", "toggles", "recycle", "setops", "swaps"],
                     {"DelV", "DelE", "DelF", "DelC", "SwapV", "SwapE", "SwapF", "SwapC", "GC", "EnVBU", "EnEBU", "EnFBU", "AddE", "AddFV", "AddC", "SetE", "SetF", "SetC"},
                     assumptions=["preservation of the invariant by every incremental update is not proved (see Properties_C01.v); it is checked by sound extracted decision "
                                  "procedures on every explored model state, which is compared cache for cache with the library",
